@@ -87,6 +87,7 @@ def rand_desc(rng, with_backing=None, cbs=None, allow_v2=True, nclusters=None, c
                        shuffle_seed=rng.randrange(1, 1 << 30) if rng.random() < 0.6 else None,
                        pack_compressed=rng.random() < 0.8)
     d.junk_free = d.shuffle_seed is not None and rng.random() < 0.6
+    d.short_header = version == 3 and rng.random() < 0.3
     return d
 
 
